@@ -155,7 +155,9 @@ static int do_send(struct side *s, const struct tcase *c, vrng *r, uint32_t maxm
     if (c->volume) len = maxmsg;
     int expect_err = 0;
     if (c->odd_sizes && vrnd_p(r, 12)) {
-        switch (vrnd_n(r, 4)) {
+        switch (vrnd_n(r, 6)) {
+        case 4: if (!e->bytestream) { len = (1ull << 32) + 100; expect_err = EMSGSIZE; } break;     /* would be 100 in 32 bits */
+        case 5: if (!e->bytestream) { len = vrnd_p(r, 50) ? (1ull << 32) : SIZE_MAX; expect_err = EMSGSIZE; } break;
         case 0: len = 0; expect_err = e->bytestream ? -1 : EINVAL; break;
         case 1: if (!e->bytestream) { len = (uint64_t)maxmsg + 1; expect_err = EMSGSIZE; } break;
         case 2: if (!e->bytestream) { len = 1u << 20; expect_err = EMSGSIZE; } break;
